@@ -67,8 +67,8 @@ Definition step_matches (cfg : config) (s : state) (o : op) (b : obs) : bool :=
   && match o, o_eb b with
      | OEndBlock, Some (ups, _, _) => let '(_, _, mups) := end_block s in list_eqb zz_eqb mups ups
      | OEndBlock, None => false
-     | OGenesis, Some (ups, _, _) => list_eqb zz_eqb (genesis_updates s) ups
-     | OGenesis, None => false
+     | OGenesis _, Some (ups, _, _) => list_eqb zz_eqb (genesis_updates s) ups
+     | OGenesis _, None => false
      | _, Some _ => false
      | _, None => true
      end.
@@ -76,13 +76,13 @@ Definition step_matches (cfg : config) (s : state) (o : op) (b : obs) : bool :=
 Fixpoint steps_match (cfg : config) (s : state) (l : list (op * obs)) : bool :=
   match l with
   | [] => true
-  | (o, b) :: r => step_matches cfg s o b && steps_match cfg (observe s o b) r
+  | (o, b) :: r => step_matches cfg s o b && steps_match (next_cfg cfg o) (observe s o b) r
   end.
 (* index of the first step that does not match (debugging aid) *)
 Fixpoint first_diff (cfg : config) (s : state) (l : list (op * obs)) (n : nat) : option nat :=
   match l with
   | [] => None
-  | (o, b) :: r => if step_matches cfg s o b then first_diff cfg (observe s o b) r (S n) else Some n
+  | (o, b) :: r => if step_matches cfg s o b then first_diff (next_cfg cfg o) (observe s o b) r (S n) else Some n
   end.
 
 Section Run.
@@ -111,7 +111,7 @@ Definition op_label (o : op) : string :=
   | OClaim _ _ _ => "claim" | OPause _ => "pause" | OUnpause _ => "unpause" | OActivate _ => "activate"
   | OVotes _ => "downtime" | OEvidence _ => "evidence" | OUnjail _ => "unjail" | OReset => "reset"
   | OUpPause _ => "upgrade-pause" | ONewBlock _ => "newblock" | OEndBlock => "endblock"
-  | ORotate _ _ => "rotate" | OGenesis => "genesis-import"
+  | ORotate _ _ => "rotate" | OGenesis _ => "genesis-import" | OSetProp _ _ _ => "set-property"
   end.
 
 Definition vals_with_key (vals : list (Z * vrec)) (k : Z) : list Z :=
@@ -198,7 +198,7 @@ Definition affected (s s' : state) : list Z :=
 
 Definition chk_next (c : chk) (s s' : state) (o : op) : chk :=
   match o with
-  | ONewBlock _ | OEndBlock | OGenesis => mkChk (st_vals s') [] None
+  | ONewBlock _ | OEndBlock | OGenesis _ => mkChk (st_vals s') [] None
   | ORotate v v' =>
       (* the record keeps its history under both addresses *)
       let e := ("rotate", option_map fst (lookup v (ck_eff c))) in
@@ -219,13 +219,13 @@ Fixpoint c05_clauses (cfg : config) (c : chk) (s : state) (l : list (op * obs)) 
     let s' := observe s o b in
     let here := match o with
                 | OEndBlock => end_block_clauses c s s' b
-                | OGenesis => (* the InitChain response is the whole new consensus set *)
+                | OGenesis _ => (* the InitChain response is the whole new consensus set *)
                     match o_res b with
                     | RPanic => ["genesis-import-empty-set"]
                     | _ => end_block_clauses (mkChk (st_vals s) [] None) (set_cons s [] (st_halt s)) s' b
                     end
                 | _ => [] end in
-    (here ++ c05_clauses cfg (chk_next c s s' o) s' r)%list
+    (here ++ c05_clauses (next_cfg cfg o) (chk_next c s s' o) s' r)%list
   end.
 
 Definition case_clauses (c : c05_case) : list string :=
